@@ -41,6 +41,7 @@ PAIR_SCENES = [
     "AirborneTEMReceivers", "AirborneTEMTransmitters", "LargeLoopGroundTEMReceivers", "TipperReceivers", "PotentialElectrode",
     "CurrentElectrode", "MTReceivers", "PropertyGroup",
 ]
+QUICK_FALLBACK_SCENES = ("Points", "FloatData", "ReferencedData", "DrillholeGroup")
 DEDUP_TARGETS = ("DrillholeGroup",)
 # quick tier: second ops of a pair = every helper that mutates + one representative of every write path
 QUICK_SECOND = {
@@ -95,6 +96,23 @@ def enumerate_cases(ctx, described):
                 continue
             seen.add(key)
             singles.append({"scene": d["scene"], "ops": [_strip(op)]})
+    # the other ways of being read-only (constructed with the default mode, then open(mode="r") / OSError fallback):
+    # every mutating entry point (no helpers; not save / save_as, whose re-opening uses the constructor's mode by contract)
+    sessions, seen_s = [], set()
+    for d in described:
+        if d["scene"] == "ALL":
+            continue
+        for op in d["ops"]:
+            if op["role"] != "mutator" or op["m"] in ("save", "save_as", "h5file"):
+                continue
+            for session in lib.SESSIONS[1:]:
+                if ctx.quick:
+                    if session == "fallback_r" and d["scene"] not in QUICK_FALLBACK_SCENES:
+                        continue
+                    if (op_key(op), session) in seen_s:
+                        continue
+                seen_s.add((op_key(op), session))
+                sessions.append({"scene": d["scene"], "ops": [_strip(op)], "session": session})
     pairs, paired = [], set()
     by_scene = {d["scene"]: d for d in described}
     for name in PAIR_SCENES_QUICK if ctx.quick else PAIR_SCENES:
@@ -122,7 +140,7 @@ def enumerate_cases(ctx, described):
                     continue
                 pairs.append({"scene": name, "ops": [_strip(a), _strip(b)]})
         paired |= fresh
-    return singles, pairs
+    return singles, sessions, pairs
 
 
 def run(ctx):  # noqa: C901
@@ -137,7 +155,7 @@ def run(ctx):  # noqa: C901
     missing = sorted({m for d in described for m in d["missing"]})
     if missing:
         raise core.HarnessError("public methods without an argument tuple in mc/c10_lib.ARGS (a new entry point?): " + ", ".join(missing))
-    singles, pairs = enumerate_cases(ctx, described)
+    singles, sessions, pairs = enumerate_cases(ctx, described)
     cap = int(os.environ.get("VERIF_C10_MAXPAIRS", "0") or 0)  # development aid (evidence then says exhaustive=False)
     if cap:
         pairs = pairs[:: max(1, len(pairs) // cap)][:cap]
@@ -155,6 +173,7 @@ def run(ctx):  # noqa: C901
             raise core.HarnessError(f"non-deterministic execution of {case}")
         ndet += 1
     res1 = core.pmap(run_single, singles)
+    res1s = core.pmap(run_single, sessions)
     res2 = []
     for start in range(0, len(pairs), 10000):  # in blocks, so that a long run shows signs of life on stderr
         res2 += core.pmap(run_pair, pairs[start : start + 10000])
@@ -169,7 +188,7 @@ def run(ctx):  # noqa: C901
         for v in res["viol"]:
             single_viol.setdefault(op_key(case["ops"][0]), set()).add(_family(v[0]))
     explained = 0
-    for case, res in list(zip(singles, res1)) + list(zip(pairs, res2)):
+    for case, res in list(zip(singles, res1)) + list(zip(sessions, res1s)) + list(zip(pairs, res2)):
         vl = [tuple(v) for v in res["viol"]]
         if len(case["ops"]) > 1:
             own = set().union(*(single_viol.get(op_key(o), set()) for o in case["ops"]))
@@ -202,8 +221,9 @@ def run(ctx):  # noqa: C901
         states=len(states),
         transitions=transitions,
         traces_validated_against_impl=judged,
-        sequences=len(singles) + len(pairs),
+        sequences=len(singles) + len(sessions) + len(pairs),
         depth1=len(singles),
+        depth1_other_read_only_sessions=len(sessions),
         depth2=len(pairs),
         scenes=len(described),
         concrete_classes=n_classes,
@@ -235,6 +255,10 @@ def run(ctx):  # noqa: C901
         "Workspace.close is observable",
         "ops that are an explicit request for a writable handle (fetch_active_workspace(mode='r+'), a second Workspace(path, mode='r+')) are exempt "
         "from handle-stays-read-only only; opening in 'r+' from the start is outside the quantifier",
+        "read-only sessions: Workspace(path, mode='r') for everything; additionally, for every mutating entry point at depth 1, a workspace constructed "
+        "with the default mode and re-opened with open(mode='r'), and one that fell back to 'r' on OSError (HDF5 refusing write access because another "
+        "handle of the process holds the file read-only; chmod is useless as root); helpers and save / save_as are left out there (re-opening such a "
+        "workspace without a mode gives 'r+' by contract)",
         "set on_file is never the first op of a pair (it declares the entity absent from the file)",
         "fixtures.UNREADABLE classes have no scene: " + ", ".join(lib.SKIP_SCENES),
         "pairs are enumerated per scene (entry points of one fixture class, its type, property group, the workspace and the helpers), not across "
